@@ -32,7 +32,7 @@ def main():
             (d / "meta.json").write_text(json.dumps({"property": prop, "summary": "(no meta given)", "needs": ""}))
         meta = json.loads((d / "meta.json").read_text())
         meta["property"] = prop
-        meta["wave"] = 4
+        meta["wave"] = int(__import__("os").environ.get("W", "4"))
         (d / "meta.json").write_text(json.dumps(meta, indent=1) + "\n")
         ids.append(sid)
     if not ids:
